@@ -103,6 +103,27 @@ def outer_order_by(sql):
     return last_order >= 0
 
 
+def excluded_names(prog):
+    """Names that some `select !{..}` of the program excludes."""
+    out = set()
+
+    def walk(pipe):
+        for t in pipe:
+            if t["t"] == "exclude":
+                out.update(e[2] for e in t["cols"])
+            if t["t"] in ("group", "window"):
+                walk(t["pipe"])
+            s_ = t.get("src")
+            if s_ and s_["k"] == "pipe":
+                walk(s_["pipe"])
+    used = grel.let_refs(prog)
+    for n, p in prog.get("lets", []):
+        if used.get(n):
+            walk(p)
+    walk(prog["main"])
+    return out
+
+
 class Outcome:
     __slots__ = ("status", "symptoms", "sql", "cols", "rows", "model", "obs", "raw")
 
@@ -225,6 +246,19 @@ def run_case(w, prog, db, dbname, dialect, src=None, want_rq=True, user_names=No
                     extras.remove(n)
             if in_order and all((GENERATED.match(x) and x not in user) or x in exp for x in extras):
                 sym = "helper_columns_leak"
+        # finer classes for programs with `select !{..}`: which columns are there that should not be, or the reverse
+        excl = excluded_names(prog)
+        if excl:
+            extras = list(act)
+            for n in exp:
+                if n in extras:
+                    extras.remove(n)
+            contained = all(act.count(n) >= exp.count(n) for n in set(exp))
+            if (len(act) > len(exp) and all(n is not None for n in exp) and contained and any(x in excl for x in extras)
+                    and all(x in excl or (GENERATED.match(x) and x not in user) for x in extras)):
+                sym = "excluded_columns_present"          # the exclusion had no effect on some column (SELECT * over an opaque table)
+            elif len(act) < len(exp) and None in exp and [n for n in exp if n is not None] == act:
+                sym = "exclusion_drops_unnamed"           # exactly the unnamed columns of the frame are missing
         o.symptoms.append(("C05", sym, "frame %r result %r" % (exp, act)))
         aligned = False
         if len(act) > len(exp) and exp and all(n is not None for n in exp) and act[:len(exp)] == exp and not m.colorder_unspec:
@@ -359,6 +393,11 @@ def _candidates(prog):
                 for ii in range(len(t["items"])):
                     c = copy.deepcopy(prog)
                     del _pipes(c)[pi][ti]["items"][ii]
+                    yield c
+            if t["t"] == "exclude" and len(t["cols"]) > 1:
+                for ii in range(len(t["cols"])):
+                    c = copy.deepcopy(prog)
+                    del _pipes(c)[pi][ti]["cols"][ii]
                     yield c
             if t["t"] == "sort" and len(t["keys"]) > 1:
                 for ii in range(len(t["keys"])):
@@ -504,6 +543,8 @@ def shape_of(prog):
             return k + "{" + ",".join(("n=" if n else "") + ek(e) for n, e in t["items"]) + "}"
         if k == "filter":
             return "filter " + ek(t["cond"])
+        if k == "exclude":
+            return "exclude{%d}" % len(t["cols"])
         if k == "sort":
             return "sort{" + ",".join(("-" if d else "") + ek(e) for d, e in t["keys"]) + "}"
         if k == "take":
